@@ -488,13 +488,20 @@ def _auto_insensitive(mod, inf, node, kind, expr):
   # singleton guard: len(E) == 1 on the path
   st = mod.enclosing_stmt(node)
   fn = mod.enclosing_function(node)
+  want = {f"len({src(expr)}) == 1", f"1 == len({src(expr)})"}
   if st is not None and fn is not None and not isinstance(fn, ast.Lambda):
-    want = {f"len({src(expr)}) == 1", f"1 == len({src(expr)})"}
     for test, pol in flow.guards(mod.parent, st, stop=fn):
       if pol and src(test) in want:
         return "singleton (guarded by len == 1)"
   if isinstance(node, ast.stmt):
     return None
+  # `... E ... if len(E) == 1 else ...`
+  up = node
+  while up is not None and not isinstance(up, ast.stmt):
+    par = mod.parent.get(up)
+    if isinstance(par, ast.IfExp) and up is par.body and src(par.test) in want:
+      return "singleton (guarded by len == 1)"
+    up = par
   # climb through order-preserving wrappers to the real consumer
   cur = node
   while True:
@@ -522,6 +529,14 @@ def _auto_insensitive(mod, inf, node, kind, expr):
       cur = par
       continue
     return None
+
+
+def _within(mod, node, root):
+  while node is not None:
+    if node is root:
+      return True
+    node = mod.parent.get(node)
+  return False
 
 
 def _qualname(mod, node):
@@ -570,3 +585,936 @@ def _scope_files(ctx, whole):
     return files
   return [f for f in files
           if f.startswith(_OUTPUT_PATH_DIRS) or f in _OUTPUT_PATH_FILES]
+
+
+# ---------------------------------------------------------------------------
+# Triaged-safe table for R4.6 (frozen): key = (file, function qualname,
+# iterated expression as ast.unparse prints it) -> (allowed consumer kinds,
+# one-line reason).  Every entry was decided by reading the code on the
+# reference tree.  A consumer that is neither provably order-insensitive nor
+# listed here is a violation.
+# ---------------------------------------------------------------------------
+
+_SAFE_OUTPUT_PATH = {
+    ("pytype/pytd/base_visitor.py", "_GetChildTypes", "types"): (
+        ("for",), "the loop body is an assert only; the set itself is returned"),
+    ("pytype/pytd/base_visitor.py", "Visitor.__init__",
+     "set(enter_fns) | set(visit_fns) | set(leave_fns)"): (
+         ("for",), "accumulates ancestor names into a set / sets a flag; the "
+         "raise is an internal assertion about the visitor class"),
+    ("pytype/pytd/booleq.py", "simplify_exprs", "expr_set"): (
+        (".pop()",), "reached only with exactly one element (len > 1 returned "
+        "in the previous arm, empty falls to the next)"),
+    ("pytype/pytd/booleq.py", "Solver.__repr__", "self.variables"): (
+        ("for",), "debug repr of the solver; never part of stub, error report "
+        "or pickle"),
+    ("pytype/pytd/booleq.py", "Solver._get_first_approximation",
+     "self.variables"): (
+         ("for",), "fills per-variable dict entries keyed by the variable"),
+    ("pytype/pytd/booleq.py", "Solver._get_first_approximation",
+     "equalities"): (
+         ("for",), "union-find style merge of shared sets: the per-class "
+         "unions do not depend on the merge order"),
+    ("pytype/pytd/booleq.py", "Solver.solve", "self.variables"): (
+        ("dictcomp", "for"), "result dict is read by key (convert_structural; "
+        "its debug log sorts); the loop computes a fixpoint and And() of the "
+        "collected terms is a set"),
+    ("pytype/pytd/optimize.py", "SimplifyUnionsWithSuperclasses.VisitUnionType",
+     "set(union.type_list)"): (
+         ("for",), "Counter addition is commutative; only counts are read"),
+    ("pytype/pytd/visitors.py", "VerifyVisitor.LeaveTypeDeclUnit",
+     "self._all_templates"): (
+         ("for",), "verification only: raises AssertionError on a broken AST "
+         "(internal crash, not output)"),
+    ("pytype/tracer_vm.py", "CallTracer.pytd_classes_for_call_traces",
+     "self._method_calls"): (
+         ("for",), "call-trace (~partial) classes only feed the structural "
+         "solver's conjunction and are dropped by "
+         "convert_structural.extract_local before output"),
+}
+
+_SAFE_WHOLE_PACKAGE = {
+    ("pytype/abstract/_interpreter_function.py",
+     "InterpreterFunction._build_signature", "kwonly"): (
+         ("tuple()",), "Signature.kwonly_params of an interpreter function is "
+         "used for membership/lookup only; stubs print get_parameters() (code "
+         "order), the error printer and Signature.__str__ sort"),
+    ("pytype/abstract/_typing.py", "Union._get_class", "classes"): (
+        (".pop()",), "else-arm of len(classes) > 1 over a non-empty set: "
+        "exactly one element"),
+    ("pytype/abstract/_typing.py", "LateAnnotation.resolve",
+     "self._unresolved_instances"): (
+         ("for",), "per-instance update (cls reset / __init__ re-run); the "
+         "instances share the annotation's class, so diagnostics coincide and "
+         "are de-duplicated"),
+    ("pytype/abstract/abstract_utils.py", "get_dict_fullhash_component",
+     "names.intersection(vardict)"): (
+         ("dictcomp",), "the dict is only fed to sorted()"),
+    ("pytype/abstract/function.py", "Signature.check_type_parameters",
+     "bare_alias_errors"): (
+         ("for",), "runs inside the loop that grows the set by at most one "
+         "name per round: every name but the newest was already reported and "
+         "duplicates are dropped keeping the first"),
+    ("pytype/abstract/function.py", "Signature._replace", "self._ATTRIBUTES"): (
+        ("for",), "fills keyword arguments by name"),
+    ("pytype/abstract/function.py", "has_visible_namedarg", "names"): (
+        ("for",), "existence test: True on the first hit, False otherwise"),
+    ("pytype/abstract/function.py", "handle_typeguard", "boolvals"): (
+        ("for",), "set of bools: int hashes are not randomised, the order is "
+        "a function of the values"),
+    ("pytype/block_environment.py", "Environment.add_block", "var"): (
+        ("list()",), "only the emptiness of the list is read (vm.load_local)"),
+    ("pytype/config.py", "Options.create", "unknown_options"): (
+        (".join()",), "ValueError for misuse of the library API; not stub, "
+        "error report or pickle"),
+    ("pytype/config.py", "Postprocessor._store_enable_only",
+     "errors.get_error_names_set() - set(enable_only.split(','))"): (
+         ("list()",), "each name is registered independently by "
+         "Director.__init__"),
+    ("pytype/convert_structural.py", "TypeSolver.solve",
+     "protocol_classes_and_aliases"): (
+         ("for",), "registers solver implications keyed by name"),
+    ("pytype/convert_structural.py", "TypeSolver.solve", "unknown_classes"): (
+        ("for",), "registers solver implications keyed by name"),
+    ("pytype/convert_structural.py", "TypeSolver.solve",
+     "complete_classes.union(self.builtins.classes)"): (
+         ("for",), "registers solver implications keyed by name"),
+    ("pytype/convert_structural.py", "TypeSolver.solve", "partial_classes"): (
+        ("for",), "registers solver implications keyed by name"),
+    ("pytype/convert_structural.py", "TypeSolver.solve", "partial_functions"): (
+        ("for",), "adds ground truths; And() of them is a set"),
+    ("pytype/convert_structural.py", "TypeSolver.solve",
+     "complete_functions.union(self.builtins.functions)"): (
+         ("for",), "adds ground truths; And() of them is a set"),
+    ("pytype/directors/directors.py", "Director._process_pragmas", "pragmas"): (
+        ("for",), "sets a per-pragma line table keyed by the pragma"),
+    ("pytype/imports_map_loader.py", "ImportsMapBuilder._finalize",
+     "intermediate_dirs"): (
+         ("for",), "fills a mapping that is read by key or as a set of values"),
+    ("pytype/matcher.py", "_compute_superset_info", "set1 & set2"): (
+        ("for",), "two conjunctions over all keys; the early return fires "
+        "only once both are already False"),
+    ("pytype/overlays/typing_overlay.py", "_TypeVariable._get_typeparam_args",
+     "extra_kwargs"): (
+         (".join()",), "at most one name (infer_variance) can remain: the "
+         "TypeVar stub signature rejects any other keyword earlier"),
+    ("pytype/pattern_matching.py", "_Option.__repr__", "self.values"): (
+        ("f-string",), "debug repr"),
+    ("pytype/pattern_matching.py", "_Matches.__repr__", "self.defaults"): (
+        ("f-string",), "debug repr"),
+    ("pytype/pattern_matching.py", "BranchTracker.check_ending", "done"): (
+        ("for",), "set of ints (line numbers): the order is a function of the "
+        "values, and each result is reported at its own line"),
+    ("pytype/pyc/generate_opcode_diffs.py", "generate_diffs",
+     "name_unchanged"): (
+         ("for",), "developer script; writes a dict/set sorted before printing"),
+    ("pytype/pyc/generate_opcode_diffs.py", "generate_diffs",
+     "set(dis1).union(dis2)"): (
+         ("for",), "developer script; writes a dict/set sorted before printing"),
+    ("pytype/rewrite/abstract/functions.py",
+     "_ArgMapper._unpack_starstarargs", "extra"): (
+         ("for",), "moves entries between dicts by key"),
+    ("pytype/rewrite/flow/conditions.py", "_Composite.__repr__",
+     "self.conditions"): (("for",), "debug repr"),
+    ("pytype/rewrite/flow/state.py", "BlockState.__repr__",
+     "self._locals_with_block_condition"): (("f-string",), "debug repr"),
+    ("pytype/tools/analyze_project/parse_args.py", "Parser.postprocess",
+     "names"): (("dictcomp",), "option map read by key"),
+    ("pytype/tools/analyze_project/pytype_runner.py", "PytypeRunner.__init__",
+     "set(conf.__slots__) - set(config.ITEMS)"): (
+         ("listcomp",), "flag order on the generated pytype-single command "
+         "line; options are keyed settings"),
+}
+
+
+def _run_set_rule(ctx, files, table):
+  import collections
+  budget = {k: collections.Counter(v[0]) for k, v in table.items()}
+  seen = set()
+  for rel in files:
+    for site in _scan_module(ctx, rel):
+      key = (rel, site["qual"], site["expr"])
+      construct = (f"{rel.removeprefix('pytype/')}:{site['qual']}|"
+                   f"{site['expr']}|{site['kind']}")
+      facts = {"iterated": site["expr"], "consumer": site["kind"]}
+      if site["auto"]:
+        ctx.ok(construct, rel, site["line"], facts | {"insensitive": site["auto"]})
+        continue
+      if key in table and budget[key][site["kind"]] > 0:
+        budget[key][site["kind"]] -= 1
+        seen.add(key)
+        ctx.ok(construct, rel, site["line"], facts | {"triaged": table[key][1]})
+        continue
+      ctx.bad(construct, rel, site["line"],
+              f"`{site['expr']}` is definitely a set and is walked by an "
+              f"order-observing consumer ({site['kind']}) in {site['qual']}; "
+              "the walk is neither provably order-insensitive nor in the "
+              "triaged table, so set/hash order can reach ordered data",
+              facts)
+  stale = [k for k in table if k not in seen and k[0] in files]
+  for k in stale:
+    ctx.note(f"R4.6 triage entry no longer matches a site: {k}")
+
+
+EXPLANATION = (
+    "Canonicalisation obligations and order hazards on the output path, read "
+    "from the AST of io.py, pytd/pytd_utils.py, pytd/pytd_visitors.py, "
+    "pytd/pytd.py, errors/errors.py, imports/pickle_utils.py, "
+    "pytd/serialize_ast.py and pytd/printer.py: R4.1 the AST stored in "
+    "ret.ast by generate_pyi_ast is the result of CanonicalOrdering applied "
+    "to the result of Optimize, and generate_pyi prints exactly that; R4.2 "
+    "CanonicalOrderingVisitor sorts every tuple field of TypeDeclUnit, Class, "
+    "Signature and UnionType (fields read from the pytd schema) except the "
+    "listed order-significant ones; R4.3 the error report is produced only "
+    "through unique_sorted_errors over a (filename, line) sort; R4.4 the "
+    "msgpack encoder is deterministic, the gzip header is constant and the "
+    "dependency lists are sorted; R4.5 the printer sorts import lines and "
+    "TypeVar definitions; R4.6 every walk over a value that is definitely a "
+    "set (intra-procedural inference) by an order-observing consumer is "
+    "either provably order-insensitive or in a frozen, hand-triaged table "
+    "(quick: output-path modules; thorough: whole package).  These are "
+    "necessary conditions.  NOT decided: determinism of the VM as a whole, "
+    "sets that reach a consumer through a call, an attribute of another "
+    "object or an unannotated parameter, iteration over dicts keyed by "
+    "id()-hashed objects, tie order of sorted() under a non-injective key.")
+ASSUMPTIONS = [
+    "str hashes are randomised per process (PYTHONHASHSEED) and object "
+    "hashes follow id(); int/bool hashes are not randomised",
+    "pytd Node.__lt__ is a total order on the nodes being sorted, so a plain "
+    "sorted() of a tuple field is canonical",
+    "msgspec's order='deterministic' sorts sets and dict keys on encoding",
+    "a name bound only to set-valued expressions / annotated as a set is a "
+    "set; attributes assigned from outside their class are not tracked",
+    "test files, test_data and typeshed are outside the scope",
+]
+
+IO = "pytype/io.py"
+PYTD_UTILS = "pytype/pytd/pytd_utils.py"
+PYTD_VISITORS = "pytype/pytd/pytd_visitors.py"
+ERRORS = "pytype/errors/errors.py"
+PRINTER = "pytype/pytd/printer.py"
+
+
+# -- small provenance helper (reaching definitions of local names) -------------
+
+def _stored_names(unit):
+  out = set()
+  todo = [unit]
+  while todo:
+    n = todo.pop()
+    if isinstance(n, _FUNC + (ast.ClassDef,)):
+      out.add(n.name)
+      continue
+    if isinstance(n, ast.Lambda):
+      continue
+    if isinstance(n, ast.Name) and isinstance(n.ctx, (ast.Store, ast.Del)):
+      out.add(n.id)
+    elif isinstance(n, ast.ExceptHandler) and n.name:
+      out.add(n.name)
+    todo.extend(ast.iter_child_nodes(n))
+  return out
+
+
+def _reaching(fn):
+  """May-flow of (name, defining unit) facts."""
+  def gen(unit):
+    return {(nm, unit) for nm in _stored_names(unit)}
+
+  def kill(unit):
+    names = _stored_names(unit)
+    if not names:
+      return None
+    return lambda fact: fact[0] in names
+  return flow.flow(fn, gen, kill, mode="may")
+
+
+def _defs_at(rd, stmt, name):
+  st = rd.before.get(stmt)
+  if st is None:
+    return []
+  return [d for (n, d) in st if n == name]
+
+
+def _callee(call):
+  return dotted(call.func) if isinstance(call, ast.Call) else None
+
+
+def _resolve_call(expr, stmt, rd, want, depth=0):
+  """Resolves `expr` (used in stmt) to calls of `want`; returns (calls, why).
+
+  expr is the call itself, or a local name all of whose reaching definitions
+  are plain assignments whose value resolves the same way.
+  """
+  if depth > 6:
+    return None, "definition chain too deep"
+  if isinstance(expr, ast.Call) and _callee(expr) == want:
+    return [(expr, stmt)], None
+  if isinstance(expr, ast.Name):
+    defs = _defs_at(rd, stmt, expr.id)
+    if not defs:
+      return None, f"{expr.id} has no local definition"
+    out = []
+    for d in defs:
+      if not (isinstance(d, ast.Assign) and len(d.targets) == 1
+              and isinstance(d.targets[0], ast.Name)):
+        return None, f"{expr.id} is bound by {type(d).__name__} at line {getattr(d, 'lineno', 0)}"
+      sub, why = _resolve_call(d.value, d, rd, want, depth + 1)
+      if sub is None:
+        return None, why
+      out.extend(sub)
+    return out, None
+  return None, f"`{src(expr)}` is not a call of {want}"
+
+
+@rule("R4.1", "C04", floor=4)
+def r4_1(ctx):
+  """generate_pyi_ast stores CanonicalOrdering(Optimize(...)) in ret.ast."""
+  mod = get_module(ctx, IO)
+  fn = mod.func("generate_pyi_ast")
+  rd = _reaching(fn)
+  stores = [n for n in ast.walk(fn) if isinstance(n, ast.Assign)
+            and any(dotted(t) == "ret.ast" for t in n.targets)]
+  if not stores:
+    raise AnalysisError("generate_pyi_ast: no assignment to ret.ast")
+  canon_sites = []
+  ok, why = True, None
+  for s in stores:
+    calls, why = _resolve_call(s.value, s, rd, "pytd_utils.CanonicalOrdering")
+    if calls is None:
+      ok = False
+      break
+    canon_sites.extend(calls)
+  ctx.check(ok, "generate_pyi_ast:ret.ast<-CanonicalOrdering", IO,
+            stores[0].lineno,
+            "the AST stored in ret.ast is not (on every path) the result of "
+            f"pytd_utils.CanonicalOrdering: {why}",
+            {"stored": [src(s.value) for s in stores]})
+  # CanonicalOrdering is applied to the optimised AST (after Optimize)
+  ok2, why2 = bool(canon_sites), "no CanonicalOrdering call"
+  for call, st in canon_sites:
+    if len(call.args) != 1 or call.keywords:
+      raise AnalysisError("CanonicalOrdering call has an unexpected signature")
+    res, why2 = _resolve_call(call.args[0], st, rd, "optimize.Optimize")
+    if res is None:
+      ok2 = False
+      break
+  ctx.check(ok2, "generate_pyi_ast:CanonicalOrdering<-Optimize", IO,
+            canon_sites[0][1].lineno if canon_sites else fn.lineno,
+            "CanonicalOrdering must be applied to the result of "
+            f"optimize.Optimize (the optimiser rebuilds unions/classes): {why2}",
+            {"argument": [src(c.args[0]) for c, _ in canon_sites]})
+  # every normal exit has passed the store, and returns `ret`
+  mf = flow.flow(fn, lambda u: {"stored"} if u in stores else None, mode="must")
+  exits = [(k, n, s) for k, n, s in mf.exits if k in ("return", "end")]
+  ok3 = bool(exits) and all(
+      s is not None and "stored" in s and k == "return"
+      and dotted(n.value) == "ret" for k, n, s in exits)
+  ctx.check(ok3, "generate_pyi_ast:store-dominates-return", IO, fn.lineno,
+            "some return of generate_pyi_ast is not preceded by the "
+            "ret.ast store, or does not return ret",
+            {"exits": [(k, getattr(n, "lineno", 0)) for k, n, _ in exits]})
+  # generate_pyi prints ret.ast of generate_pyi_ast
+  g = mod.func("generate_pyi")
+  rdg = _reaching(g)
+  outs = calls_in(g, name="_output_ast")
+  if len(outs) != 1 or not outs[0].args:
+    raise AnalysisError("generate_pyi: _output_ast(...) call not found")
+  a0 = outs[0].args[0]
+  ok4, why4 = False, f"_output_ast is given `{src(a0)}`"
+  if isinstance(a0, ast.Attribute) and a0.attr == "ast" and \
+      isinstance(a0.value, ast.Name):
+    res, why4 = _resolve_call(a0.value, mod.enclosing_stmt(outs[0]), rdg,
+                              "generate_pyi_ast")
+    ok4 = res is not None
+  ctx.check(ok4, "generate_pyi:prints-canonical-ast", IO, outs[0].lineno,
+            "generate_pyi must print <ret>.ast where ret = "
+            f"generate_pyi_ast(...): {why4}", {"printed": src(a0)})
+  # CanonicalOrdering runs the canonical visitor
+  um = get_module(ctx, PYTD_UTILS)
+  co = um.func("CanonicalOrdering")
+  rets = [n for n in ast.walk(co) if isinstance(n, ast.Return)]
+  param = co.args.args[0].arg if co.args.args else None
+  ok5 = (len(rets) == 1 and isinstance(rets[0].value, ast.Call)
+         and dotted(rets[0].value.func) == f"{param}.Visit"
+         and len(rets[0].value.args) == 1
+         and _callee(rets[0].value.args[0]) in (
+             "pytd_visitors.CanonicalOrderingVisitor",
+             "visitors.CanonicalOrderingVisitor"))
+  ctx.check(ok5, "CanonicalOrdering:visitor", PYTD_UTILS, co.lineno,
+            "CanonicalOrdering(n) must return "
+            "n.Visit(pytd_visitors.CanonicalOrderingVisitor())",
+            {"returns": [src(r.value) for r in rets if r.value]})
+
+
+# -- R4.2 ------------------------------------------------------------------------
+
+# fields the canonical visitor must NOT sort, with the reason
+_ORDER_SIGNIFICANT = {
+    ("Class", "bases"): "base order is the MRO input",
+    ("Class", "keywords"): "class keywords are kept as written "
+                           "(metaclass=..., total=...)",
+    ("Class", "template"): "template order is the positional order of the "
+                           "class's type parameters",
+    ("Signature", "params"): "parameters are positional",
+}
+
+
+def _sorted_of(expr, param, field):
+  """expr is `tuple(sorted(P.F))` / `sorted(P.F)` (no key); returns bool."""
+  if isinstance(expr, ast.Call) and dotted(expr.func) in ("tuple", "list") and \
+      len(expr.args) == 1 and not expr.keywords:
+    expr = expr.args[0]
+  return (isinstance(expr, ast.Call) and dotted(expr.func) == "sorted"
+          and len(expr.args) == 1 and not expr.keywords
+          and dotted(expr.args[0]) == f"{param}.{field}")
+
+
+def _classify_field_value(mod, fn, rd, stmt, expr, param, field, depth=0):
+  """-> list of (kind, stmt) with kind in sorted / passthrough / none."""
+  if depth > 4:
+    raise AnalysisError(f"{fn.name}: definition chain of {field} too deep")
+  if _sorted_of(expr, param, field):
+    return [("sorted", stmt)]
+  if dotted(expr) == f"{param}.{field}":
+    return [("passthrough", stmt)]
+  if isinstance(expr, ast.Constant) and expr.value is None:
+    return [("none", stmt)]
+  d = dotted(expr)
+  if d and d.startswith(param + ".") and d.count(".") == 1:
+    return [(f"other-field:{d}", stmt)]
+  if isinstance(expr, ast.Call) and dotted(expr.func) == "sorted" and \
+      len(expr.args) == 1 and not expr.keywords:
+    d = dotted(expr.args[0])
+    if d and d.startswith(param + ".") and d.count(".") == 1:
+      return [(f"sorted-other-field:{d}", stmt)]
+  if isinstance(expr, ast.Call) and dotted(expr.func) in ("tuple", "list") and \
+      len(expr.args) == 1 and not expr.keywords:
+    return _classify_field_value(mod, fn, rd, stmt, expr.args[0], param,
+                                 field, depth + 1)
+  if isinstance(expr, ast.IfExp):
+    test = src(expr.test)
+    body = _classify_field_value(mod, fn, rd, stmt, expr.body, param, field, depth + 1)
+    other = _classify_field_value(mod, fn, rd, stmt, expr.orelse, param, field, depth + 1)
+    # `sorted(x) if x is not None else None`
+    if test == f"{param}.{field} is not None" and other == [("none", stmt)]:
+      return body
+    if test == f"{param}.{field} is None" and body == [("none", stmt)]:
+      return other
+    raise AnalysisError(f"{fn.name}: conditional for {field} not understood: {test}")
+  if isinstance(expr, ast.Name):
+    defs = _defs_at(rd, stmt, expr.id)
+    if not defs:
+      raise AnalysisError(f"{fn.name}: {expr.id} has no local definition")
+    out = []
+    for d in defs:
+      if not (isinstance(d, ast.Assign) and len(d.targets) == 1
+              and isinstance(d.targets[0], ast.Name)):
+        raise AnalysisError(f"{fn.name}: {expr.id} bound by {type(d).__name__}")
+      out.extend(_classify_field_value(mod, fn, rd, d, d.value, param, field,
+                                       depth + 1))
+    return out
+  raise AnalysisError(f"{fn.name}: value of {field} not understood: {src(expr)}")
+
+
+def _canonical_visit(ctx, cls, method, sch):
+  """Per tuple field of pytd.<cls>: how Visit<cls> rebuilds it."""
+  mod = get_module(ctx, PYTD_VISITORS)
+  fn = mod.func(f"CanonicalOrderingVisitor.{method}")
+  if len(fn.args.args) != 2:
+    raise AnalysisError(f"{method}: unexpected parameters")
+  param = fn.args.args[1].arg
+  rd = _reaching(fn)
+  rets = [n for n in walk_no_nested(fn) if isinstance(n, ast.Return)]
+  if len(rets) != 1 or not isinstance(rets[0].value, ast.Call):
+    raise AnalysisError(f"{method}: expected a single `return <call>`")
+  call = rets[0].value
+  d = dotted(call.func)
+  if call.args or any(k.arg is None for k in call.keywords):
+    raise AnalysisError(f"{method}: positional/** arguments in the rebuilt node")
+  if d == f"pytd.{cls}":
+    shape = "ctor"
+  elif d == f"{param}.Replace":
+    shape = "replace"
+  else:
+    raise AnalysisError(f"{method}: returns {d}(...), expected pytd.{cls}(...) "
+                        f"or {param}.Replace(...)")
+  out = {}
+  for field in sch.tuple_fields(cls):
+    v = kwarg(call, field)
+    if v is None:
+      out[field] = ([("passthrough" if shape == "replace" else "missing",
+                      rets[0])], fn, mod, rets[0])
+    else:
+      out[field] = (_classify_field_value(mod, fn, rd, rets[0], v, param, field),
+                    fn, mod, rets[0])
+  return out
+
+
+@rule("R4.2", "C04", floor=17)
+def r4_2(ctx):
+  """CanonicalOrderingVisitor sorts every tuple field (schema-driven)."""
+  from rules._pytd_schema import get_schema
+  sch = get_schema(ctx)
+  rel = PYTD_VISITORS
+  for cls, method in (("TypeDeclUnit", "VisitTypeDeclUnit"),
+                      ("Class", "VisitClass"),
+                      ("Signature", "VisitSignature"),
+                      ("UnionType", "VisitUnionType")):
+    if cls == "UnionType":
+      continue
+    res = _canonical_visit(ctx, cls, method, sch)
+    if not res:
+      raise AnalysisError(f"pytd.{cls} has no tuple fields")
+    for field, (kinds, fn, mod, ret) in res.items():
+      construct = f"{method}:{field}"
+      ks = sorted({k for k, _ in kinds})
+      facts = {"rebuilt_as": ks}
+      if (cls, field) in _ORDER_SIGNIFICANT:
+        ctx.check(ks == ["passthrough"], construct, rel, fn.lineno,
+                  f"pytd.{cls}.{field} is order-significant "
+                  f"({_ORDER_SIGNIFICANT[(cls, field)]}) but is rebuilt as {ks}",
+                  facts | {"exception": _ORDER_SIGNIFICANT[(cls, field)]})
+        continue
+      if "missing" in ks:
+        ctx.bad(construct, rel, fn.lineno,
+                f"{method} does not pass pytd.{cls}.{field}", facts)
+        continue
+      if ks == ["sorted"]:
+        ctx.ok(construct, rel, fn.lineno, facts)
+        continue
+      if "sorted" in ks and "passthrough" in ks and (cls, field) == ("Class", "constants"):
+        # unsorted only under the dataclass / namedtuple guard
+        guarded = True
+        gl = []
+        for k, st in kinds:
+          if k != "passthrough":
+            continue
+          g = [(src(t), p) for t, p in flow.guards(mod.parent, st, stop=fn)]
+          gl.append(g)
+          if (f"self._PreserveConstantsOrdering({fn.args.args[1].arg})", True) not in g:
+            guarded = False
+        ctx.check(guarded, construct, rel, fn.lineno,
+                  "Class.constants may stay unsorted only under "
+                  "_PreserveConstantsOrdering(node) (dataclass/attrs/namedtuple "
+                  f"field order); guards={gl}",
+                  facts | {"exception": "dataclass/namedtuple field order",
+                           "guards": gl})
+        continue
+      ctx.bad(construct, rel, fn.lineno,
+              f"pytd.{cls}.{field} is a tuple field but {method} rebuilds it "
+              f"as {ks}: its order then depends on how the AST was produced",
+              facts)
+  # UnionType: positional ctor
+  mod = get_module(ctx, rel)
+  fn = mod.func("CanonicalOrderingVisitor.VisitUnionType")
+  param = fn.args.args[1].arg
+  rets = [n for n in walk_no_nested(fn) if isinstance(n, ast.Return)]
+  if len(rets) != 1 or not isinstance(rets[0].value, ast.Call) or \
+      dotted(rets[0].value.func) != "pytd.UnionType":
+    raise AnalysisError("VisitUnionType: expected `return pytd.UnionType(...)`")
+  call = rets[0].value
+  v = call.args[0] if len(call.args) == 1 and not call.keywords else \
+      kwarg(call, "type_list")
+  if v is None:
+    raise AnalysisError("VisitUnionType: type_list argument not found")
+  if "type_list" not in sch.tuple_fields("UnionType"):
+    raise AnalysisError("pytd.UnionType.type_list is no longer a tuple field")
+  ctx.check(_sorted_of(v, param, "type_list"), "VisitUnionType:type_list", rel,
+            fn.lineno, f"UnionType.type_list is rebuilt as {src(v)}; union "
+            "members come from binding order and must be sorted",
+            {"value": src(v)})
+  # the helper guarding the constants exception looks at decorators / bases
+  pc = mod.func("CanonicalOrderingVisitor._PreserveConstantsOrdering")
+  txt = src(pc)
+  ok = "dataclasses.dataclass" in txt and "IsNamedTuple" in txt
+  ctx.check(ok, "_PreserveConstantsOrdering:scope", rel, pc.lineno,
+            "_PreserveConstantsOrdering must be limited to dataclass-like "
+            "decorators and namedtuples", {})
+
+
+# -- R4.3 ------------------------------------------------------------------------
+
+_ERRORLOG_READS_OK = {"print_to_csv_file", "print_to_stderr", "print_to_file",
+                      "has_error", "unique_sorted_errors"}
+
+
+def _iter_exprs(fn):
+  """Expressions iterated in fn: for-statements and comprehension generators."""
+  out = []
+  for n in ast.walk(fn):
+    if isinstance(n, (ast.For, ast.AsyncFor)):
+      out.append(n.iter)
+    elif isinstance(n, ast.comprehension):
+      out.append(n.iter)
+  return out
+
+
+@rule("R4.3", "C04", floor=8)
+def r4_3(ctx):
+  """The error report is read only through unique_sorted_errors."""
+  mod = get_module(ctx, ERRORS)
+  # _sorted_errors: sorted(self._errors, key=lambda x: (filename, line))
+  fn = mod.func("ErrorLog._sorted_errors")
+  rets = [n for n in ast.walk(fn) if isinstance(n, ast.Return)]
+  if len(rets) != 1:
+    raise AnalysisError("_sorted_errors: expected one return")
+  v = rets[0].value
+  ok = isinstance(v, ast.Call) and dotted(v.func) == "sorted" and \
+      len(v.args) == 1 and dotted(v.args[0]) == "self._errors"
+  key = kwarg(v, "key") if isinstance(v, ast.Call) else None
+  keyparts = []
+  if ok and isinstance(key, ast.Lambda) and isinstance(key.body, ast.Tuple):
+    p = key.args.args[0].arg
+    for e in key.body.elts:
+      attrs = [dotted(a) for a in ast.walk(e) if isinstance(a, ast.Attribute)]
+      keyparts.append([a for a in attrs if a and a.startswith(p + ".")])
+    flat = [a.split(".", 1)[1] for part in keyparts for a in part]
+    ok = len(keyparts) >= 2 and any("filename" in a for a in keyparts[0]) and \
+        any(a.endswith(".line") or a.endswith(".lineno") for a in keyparts[1])
+    ok = ok and kwarg(v, "reverse") is None
+  else:
+    ok = False
+    flat = []
+  ctx.check(ok, "_sorted_errors:key", ERRORS, fn.lineno,
+            f"_sorted_errors must return sorted(self._errors, key=(filename, "
+            f"line, ...)); found {src(v)}", {"key_fields": flat})
+  # unique_sorted_errors iterates _sorted_errors() and nothing else of the log
+  fn = mod.func("ErrorLog.unique_sorted_errors")
+  its = [src(e) for e in _iter_exprs(fn)]
+  raw = [e for e in its if "self._errors" in e or e == "self"]
+  ok = "self._sorted_errors()" in its and not raw
+  ctx.check(ok, "unique_sorted_errors:source", ERRORS, fn.lineno,
+            f"unique_sorted_errors must walk self._sorted_errors(); it "
+            f"iterates {its}", {"iterates": its})
+  # its result is built from the insertion-ordered dict filled in that walk
+  rets = [n for n in walk_no_nested(fn) if isinstance(n, ast.Return)]
+  ok = len(rets) == 1 and src(rets[0].value) in (
+      "sum(unique_errors.values(), [])",
+      "list(itertools.chain.from_iterable(unique_errors.values()))")
+  if not ok:
+    raise AnalysisError("unique_sorted_errors: return shape not understood: "
+                        + ", ".join(src(r.value) for r in rets if r.value))
+  # printers iterate only unique_sorted_errors()
+  for name in ("print_to_csv_file", "print_to_file"):
+    f = mod.func(f"ErrorLog.{name}")
+    its = [src(e) for e in _iter_exprs(f)]
+    touches = [dotted(a) for a in ast.walk(f) if isinstance(a, ast.Attribute)
+               and dotted(a) in ("self._errors",)]
+    ok = its == ["self.unique_sorted_errors()"] and not touches
+    ctx.check(ok, f"{name}:source", ERRORS, f.lineno,
+              f"{name} must print exactly the errors of "
+              f"self.unique_sorted_errors(); it iterates {its}"
+              + (" and reads self._errors" if touches else ""),
+              {"iterates": its})
+  for name in ("print_to_stderr", "__str__"):
+    f = mod.func(f"ErrorLog.{name}")
+    callees = sorted({dotted(c.func) for c in calls_in(f)
+                      if (dotted(c.func) or "").startswith("self.")})
+    touches = [1 for a in ast.walk(f) if isinstance(a, ast.Attribute)
+               and dotted(a) == "self._errors"]
+    ok = callees == ["self.print_to_file"] and not touches and not _iter_exprs(f)
+    ctx.check(ok, f"{name}:delegates", ERRORS, f.lineno,
+              f"{name} must delegate to self.print_to_file; calls {callees}",
+              {"calls": callees})
+  # io.handle_errors reads the log only through the sorted printers
+  io = get_module(ctx, IO)
+  f = io.func("handle_errors")
+  log = f.args.args[0].arg
+  uses = []
+  for n in ast.walk(f):
+    if isinstance(n, ast.Name) and n.id == log and isinstance(n.ctx, ast.Load):
+      par = io.parent.get(n)
+      if isinstance(par, ast.Attribute) and isinstance(io.parent.get(par), ast.Call) \
+          and io.parent[par].func is par:
+        uses.append(par.attr)
+      elif isinstance(par, ast.Call) and n in par.args:
+        uses.append("->" + (dotted(par.func) or "?"))
+      else:
+        uses.append("raw:" + type(par).__name__)
+  bad_uses = [u for u in uses if not (u in _ERRORLOG_READS_OK
+                                      or u == "->print_error_doc_url")]
+  ctx.check(not bad_uses and "print_to_stderr" in uses, "handle_errors:reads",
+            IO, f.lineno,
+            f"handle_errors may read the error log only through "
+            f"{sorted(_ERRORLOG_READS_OK)}; found {bad_uses or uses}",
+            {"uses": uses})
+  # print_error_doc_url: builds a set of names; pops only a singleton
+  f = io.func("print_error_doc_url")
+  log = f.args.args[0].arg
+  its = _iter_exprs(f)
+  ok = True
+  for e in its:
+    if dotted(e) == log:
+      comp = io.parent[io.parent[e]] if e in io.parent else None
+      if not isinstance(comp, ast.SetComp):
+        ok = False
+  pops = [c for c in calls_in(f) if isinstance(c.func, ast.Attribute)
+          and c.func.attr == "pop"]
+  for c in pops:
+    recv = src(c.func.value)
+    g = [(src(t), p) for t, p in flow.guards(io.parent, io.enclosing_stmt(c), stop=f)]
+    if (f"len({recv}) == 1", True) not in g:
+      ok = False
+  ctx.check(ok, "print_error_doc_url:order-free", IO, f.lineno,
+            "print_error_doc_url may only build a set from the log and pop it "
+            "when it has exactly one element", {"pops": len(pops)})
+
+
+# -- R4.4 ------------------------------------------------------------------------
+
+@rule("R4.4", "C04", floor=8)
+def r4_4(ctx):
+  """Deterministic encoder, constant gzip header, sorted dependency lists."""
+  from rules._pytd_schema import serialisation_instances
+  serialisation_instances(ctx)
+
+
+# -- R4.5 ------------------------------------------------------------------------
+
+def _single_return(fn, what):
+  rets = [n for n in walk_no_nested(fn) if isinstance(n, ast.Return) and n.value is not None]
+  return rets
+
+
+def _plain_sorted(expr):
+  return isinstance(expr, ast.Call) and dotted(expr.func) == "sorted" and \
+      len(expr.args) == 1 and kwarg(expr, "reverse") is None
+
+
+def _total_key(call):
+  """sorted(.., key=K): K is absent, or a lambda whose tuple ends in its arg."""
+  k = kwarg(call, "key")
+  if k is None:
+    return True
+  if isinstance(k, ast.Lambda) and len(k.args.args) == 1:
+    p = k.args.args[0].arg
+    b = k.body
+    if isinstance(b, ast.Name) and b.id == p:
+      return True
+    if isinstance(b, ast.Tuple) and b.elts and isinstance(b.elts[-1], ast.Name) \
+        and b.elts[-1].id == p:
+      return True
+  return False
+
+
+@rule("R4.5", "C04", floor=4)
+def r4_5(ctx):
+  """The printer sorts import lines, import targets and TypeVar definitions."""
+  mod = get_module(ctx, PRINTER)
+  # _TypingImports.to_import_statements: join(sorted(targets))
+  fn = mod.func("_TypingImports.to_import_statements")
+  joins = [c for c in calls_in(fn) if isinstance(c.func, ast.Attribute)
+           and c.func.attr == "join"]
+  if len(joins) != 1:
+    raise AnalysisError("_TypingImports.to_import_statements: expected one join")
+  a = joins[0].args[0]
+  ctx.check(_plain_sorted(a) and _total_key(a),
+            "_TypingImports.to_import_statements:targets", PRINTER, fn.lineno,
+            f"`from typing import ...` targets are joined from {src(a)}; they "
+            "are collected in first-use order and must be sorted",
+            {"joined": src(a)})
+  # _Imports.to_import_statements
+  fn = mod.func("_Imports.to_import_statements")
+  rets = _single_return(fn, "imports")
+  if len(rets) != 1:
+    raise AnalysisError("_Imports.to_import_statements: expected one return")
+  v = rets[0].value
+  ctx.check(_plain_sorted(v) and _total_key(v),
+            "_Imports.to_import_statements:lines", PRINTER, fn.lineno,
+            f"import lines are returned as {src(v)}; they must be sorted with "
+            "a total key (the line itself as the last key component)",
+            {"returned": src(v)})
+  joins = [c for c in calls_in(fn) if isinstance(c.func, ast.Attribute)
+           and c.func.attr == "join"]
+  if len(joins) != 1:
+    raise AnalysisError("_Imports.to_import_statements: expected one join")
+  a = joins[0].args[0]
+  ctx.check(_plain_sorted(a) and _total_key(a),
+            "_Imports.to_import_statements:from-targets", PRINTER, fn.lineno,
+            f"`from m import ...` targets are joined from {src(a)}; must be "
+            "sorted", {"joined": src(a)})
+  # _FormatTypeParams
+  fn = mod.func("PrintVisitor._FormatTypeParams")
+  rets = _single_return(fn, "type params")
+  if len(rets) != 1:
+    raise AnalysisError("_FormatTypeParams: expected one return")
+  v = rets[0].value
+  ctx.check(_plain_sorted(v) and _total_key(v),
+            "_FormatTypeParams:lines", PRINTER, fn.lineno,
+            f"TypeVar definition lines are returned as {src(v)}; must be sorted",
+            {"returned": src(v)})
+
+
+# -- R4.6 ------------------------------------------------------------------------
+
+@rule("R4.6", "C04", floor=16)
+def r4_6(ctx):
+  """Set iteration feeding ordered data: output-path modules."""
+  _run_set_rule(ctx, _scope_files(ctx, whole=False), _SAFE_OUTPUT_PATH)
+
+
+@rule("R4.6w", "C04", floor=41, tier="thorough")
+def r4_6_whole(ctx):
+  """Set iteration feeding ordered data: the rest of the package."""
+  quick = set(_scope_files(ctx, whole=False))
+  files = [f for f in _scope_files(ctx, whole=True) if f not in quick]
+  _run_set_rule(ctx, files, _SAFE_WHOLE_PACKAGE)
+
+
+VARIANTS = [
+    # -- R4.1 ---------------------------------------------------------------
+    {"name": "drop-CanonicalOrdering", "rule": "R4.1", "file": IO, "expect": "fire",
+     "old": "    mod = pytd_utils.CanonicalOrdering(mod)\n  ret.ast = mod",
+     "new": "  ret.ast = mod"},
+    {"name": "canonical-before-optimize", "rule": "R4.1", "expect": "fire",
+     "edits": [
+         (IO, "    mod.Visit(visitors.VerifyVisitor())\n    mod = optimize.Optimize(",
+          "    mod.Visit(visitors.VerifyVisitor())\n    mod = pytd_utils.CanonicalOrdering(mod)\n    opt = optimize.Optimize("),
+         (IO, "    mod = pytd_utils.CanonicalOrdering(mod)\n  ret.ast = mod",
+          "    mod = opt\n  ret.ast = mod")]},
+    {"name": "quick-mode-returns-before-canonicalisation", "rule": "R4.1", "file": IO,
+     "expect": "fire",
+     "old": "    mod = ret.ast\n    mod.Visit(visitors.VerifyVisitor())",
+     "new": "    mod = ret.ast\n    if options.quick:\n      return ret\n    mod.Visit(visitors.VerifyVisitor())"},
+    {"name": "generate_pyi-prints-raw-inference", "rule": "R4.1", "file": IO,
+     "expect": "fire",
+     "old": "  ret = generate_pyi_ast(src, options, loader)\n  return ret, _output_ast(ret.ast, options)",
+     "new": "  ret = generate_pyi_ast(src, options, loader)\n  raw = _call(analyze.infer_types, src, options, loader)\n  return ret, _output_ast(raw.ast, options)"},
+    {"name": "CanonicalOrdering-wrong-visitor", "rule": "R4.1", "file": PYTD_UTILS,
+     "expect": "fire",
+     "old": "  return n.Visit(pytd_visitors.CanonicalOrderingVisitor())",
+     "new": "  return n.Visit(pytd_visitors.ClassTypeToNamedType())"},
+    {"name": "twin-rename-canonical-local", "rule": "R4.1", "file": IO, "expect": "silent",
+     "old": "    mod = pytd_utils.CanonicalOrdering(mod)\n  ret.ast = mod",
+     "new": "    canonical = pytd_utils.CanonicalOrdering(mod)\n  ret.ast = canonical"},
+    {"name": "twin-store-call-result-directly", "rule": "R4.1", "file": IO, "expect": "silent",
+     "old": "    mod = pytd_utils.CanonicalOrdering(mod)\n  ret.ast = mod",
+     "new": "  ret.ast = pytd_utils.CanonicalOrdering(mod)"},
+    # -- R4.2 ---------------------------------------------------------------
+    {"name": "class-methods-unsorted", "rule": "R4.2", "file": PYTD_VISITORS, "expect": "fire",
+     "old": "        methods=tuple(sorted(node.methods)),",
+     "new": "        methods=node.methods,"},
+    {"name": "unit-aliases-unsorted", "rule": "R4.2", "file": PYTD_VISITORS, "expect": "fire",
+     "old": "        aliases=tuple(sorted(node.aliases)),",
+     "new": "        aliases=node.aliases,"},
+    {"name": "union-members-unsorted", "rule": "R4.2", "file": PYTD_VISITORS, "expect": "fire",
+     "old": "    return pytd.UnionType(tuple(sorted(node.type_list)))",
+     "new": "    return pytd.UnionType(tuple(node.type_list))"},
+    {"name": "class-constants-never-sorted", "rule": "R4.2", "file": PYTD_VISITORS, "expect": "fire",
+     "old": "      constants = sorted(node.constants)",
+     "new": "      constants = node.constants"},
+    {"name": "signature-exceptions-unsorted", "rule": "R4.2", "file": PYTD_VISITORS, "expect": "fire",
+     "old": "        exceptions=tuple(sorted(node.exceptions)),\n", "new": ""},
+    {"name": "functions-sorted-from-wrong-field", "rule": "R4.2", "file": PYTD_VISITORS, "expect": "fire",
+     "old": "        functions=tuple(sorted(node.functions)),",
+     "new": "        functions=tuple(sorted(node.classes)),"},
+    {"name": "new-tuple-field-not-canonicalised", "rule": "R4.2", "file": "pytype/pytd/pytd.py",
+     "expect": "fire",
+     "old": "  slots: tuple[str, ...] | None\n",
+     "new": "  slots: tuple[str, ...] | None\n  final_names: tuple[str, ...] = ()\n"},
+    {"name": "twin-sorted-tuple-in-branch", "rule": "R4.2", "file": PYTD_VISITORS, "expect": "silent",
+     "old": "      constants = sorted(node.constants)",
+     "new": "      constants = tuple(sorted(node.constants))"},
+    {"name": "twin-slots-conditional-flipped", "rule": "R4.2", "file": PYTD_VISITORS, "expect": "silent",
+     "old": "        slots=tuple(sorted(node.slots)) if node.slots is not None else None,",
+     "new": "        slots=None if node.slots is None else tuple(sorted(node.slots)),"},
+    # -- R4.3 ---------------------------------------------------------------
+    {"name": "errors-unsorted", "rule": "R4.3", "file": ERRORS, "expect": "fire",
+     "old": "    return sorted(self._errors, key=lambda x: (x.filename or \"\", x.line))",
+     "new": "    return list(self._errors)"},
+    {"name": "sort-key-drops-line", "rule": "R4.3", "file": ERRORS, "expect": "fire",
+     "old": "key=lambda x: (x.filename or \"\", x.line))",
+     "new": "key=lambda x: x.filename or \"\")"},
+    {"name": "print_to_file-reads-raw-log", "rule": "R4.3", "file": ERRORS, "expect": "fire",
+     "old": "  def print_to_file(self, fi: IO[str], *, color: bool = False):\n    for error in self.unique_sorted_errors():",
+     "new": "  def print_to_file(self, fi: IO[str], *, color: bool = False):\n    for error in self._errors:"},
+    {"name": "unique-errors-skip-sort", "rule": "R4.3", "file": ERRORS, "expect": "fire",
+     "old": "    for error in self._sorted_errors():",
+     "new": "    for error in self._errors:"},
+    {"name": "handle_errors-prints-raw-log", "rule": "R4.3", "file": IO, "expect": "fire",
+     "old": "  errorlog.print_to_stderr(color=options.color)",
+     "new": "  for e in errorlog:\n    print(e.as_string(color=options.color), file=sys.stderr)"},
+    {"name": "doc-url-pops-from-any-set", "rule": "R4.3", "file": IO, "expect": "fire",
+     "old": "    if len(names) == 1:\n      doclink += \"#\" + names.pop()",
+     "new": "    if names:\n      doclink += \"#\" + names.pop()"},
+    {"name": "twin-rename-sort-key-param", "rule": "R4.3", "file": ERRORS, "expect": "silent",
+     "old": "key=lambda x: (x.filename or \"\", x.line))",
+     "new": "key=lambda err: (err.filename or \"\", err.line))"},
+    # -- R4.4 ---------------------------------------------------------------
+    {"name": "encoder-order-none", "rule": "R4.4", "file": "pytype/imports/pickle_utils.py",
+     "expect": "fire",
+     "old": "Encoder = msgspec.msgpack.Encoder(order=\"deterministic\")",
+     "new": "Encoder = msgspec.msgpack.Encoder(order=None)"},
+    {"name": "encoder-default-order", "rule": "R4.4", "file": "pytype/imports/pickle_utils.py",
+     "expect": "fire",
+     "old": "Encoder = msgspec.msgpack.Encoder(order=\"deterministic\")",
+     "new": "Encoder = msgspec.msgpack.Encoder()"},
+    {"name": "encode-bypasses-encoder", "rule": "R4.4", "file": "pytype/imports/pickle_utils.py",
+     "expect": "fire",
+     "old": "  return Encoder.encode(obj)", "new": "  return msgspec.msgpack.encode(obj)"},
+    {"name": "gzip-live-mtime", "rule": "R4.4", "file": "pytype/imports/pickle_utils.py",
+     "expect": "fire", "old": "fileobj=fi, mtime=1.0)", "new": "fileobj=fi, mtime=time.time())"},
+    {"name": "gzip-default-mtime", "rule": "R4.4", "file": "pytype/imports/pickle_utils.py",
+     "expect": "fire", "old": "fileobj=fi, mtime=1.0)", "new": "fileobj=fi)"},
+    {"name": "gzip-header-carries-filename", "rule": "R4.4", "file": "pytype/imports/pickle_utils.py",
+     "expect": "fire", "old": "gzip.GzipFile(filename=\"\", mode=\"wb\"",
+     "new": "gzip.GzipFile(mode=\"wb\""},
+    {"name": "dependencies-unsorted", "rule": "R4.4", "file": "pytype/pytd/serialize_ast.py",
+     "expect": "fire", "old": "      sorted(dependencies.items()),",
+     "new": "      list(dependencies.items()),"},
+    {"name": "late-dependencies-unsorted", "rule": "R4.4", "file": "pytype/pytd/serialize_ast.py",
+     "expect": "fire", "old": "      sorted(late_dependencies.items()),",
+     "new": "      list(late_dependencies.items()),"},
+    {"name": "twin-encoder-order-sorted", "rule": "R4.4", "file": "pytype/imports/pickle_utils.py",
+     "expect": "silent",
+     "old": "Encoder = msgspec.msgpack.Encoder(order=\"deterministic\")",
+     "new": "Encoder = msgspec.msgpack.Encoder(order=\"sorted\")"},
+    {"name": "twin-other-constant-mtime", "rule": "R4.4", "file": "pytype/imports/pickle_utils.py",
+     "expect": "silent", "old": "fileobj=fi, mtime=1.0)", "new": "fileobj=fi, mtime=0)"},
+    {"name": "twin-dependency-lists-by-keyword", "rule": "R4.4",
+     "file": "pytype/pytd/serialize_ast.py", "expect": "silent",
+     "old": "      sorted(dependencies.items()),\n      sorted(late_dependencies.items()),",
+     "new": "      late_dependencies=sorted(late_dependencies.items()),\n      dependencies=sorted(dependencies.items()),"},
+    # -- R4.5 ---------------------------------------------------------------
+    {"name": "typevars-unsorted", "rule": "R4.5", "file": PRINTER, "expect": "fire",
+     "old": "    return sorted(formatted_type_params)", "new": "    return formatted_type_params"},
+    {"name": "typing-import-targets-unsorted", "rule": "R4.5", "file": PRINTER, "expect": "fire",
+     "old": "\", \".join(sorted(targets))]", "new": "\", \".join(targets)]"},
+    {"name": "import-lines-unsorted", "rule": "R4.5", "file": PRINTER, "expect": "fire",
+     "old": "    return sorted(imports, key=lambda s: (s.startswith(\"from \"), s))",
+     "new": "    return imports"},
+    {"name": "import-lines-partial-key", "rule": "R4.5", "file": PRINTER, "expect": "fire",
+     "old": "    return sorted(imports, key=lambda s: (s.startswith(\"from \"), s))",
+     "new": "    return sorted(imports, key=lambda s: s.startswith(\"from \"))"},
+    {"name": "twin-rename-import-key-param", "rule": "R4.5", "file": PRINTER, "expect": "silent",
+     "old": "    return sorted(imports, key=lambda s: (s.startswith(\"from \"), s))",
+     "new": "    return sorted(imports, key=lambda line: (line.startswith(\"from \"), line))"},
+    # -- R4.6 ---------------------------------------------------------------
+    {"name": "merge_classes-walks-set", "rule": "R4.6", "file": "pytype/convert.py",
+     "expect": "fire",
+     "old": "    return self.merge_values(sorted(classes, key=lambda cls: cls.full_name))",
+     "new": "    return self.merge_values(list(classes))"},
+    {"name": "annotated-tags-tuple-of-set", "rule": "R4.6", "file": PYTD_UTILS, "expect": "fire",
+     "old": "      return pytd.Annotated(self.union, tuple(sorted(self.tags)))",
+     "new": "      return pytd.Annotated(self.union, tuple(self.tags))"},
+    {"name": "doc-url-joins-name-set", "rule": "R4.6", "file": IO, "expect": "fire",
+     "old": "    if len(names) == 1:\n      doclink += \"#\" + names.pop()",
+     "new": "    doclink += \"#\" + \",\".join(names)"},
+    {"name": "new-loop-over-set-appends-to-list", "rule": "R4.6",
+     "file": "pytype/pytd/serialize_ast.py", "expect": "fire",
+     "old": "      names = {ct.name for ct in self.class_type_nodes}\n",
+     "new": "      names = {ct.name for ct in self.class_type_nodes}\n      self.metadata = [n for n in names]\n"},
+    {"name": "twin-set-listed-then-sorted", "rule": "R4.6", "file": PYTD_UTILS, "expect": "silent",
+     "old": "      return pytd.Annotated(self.union, tuple(sorted(self.tags)))",
+     "new": "      return pytd.Annotated(self.union, tuple(sorted(list(self.tags))))"},
+    {"name": "twin-sorted-over-tuple-of-set", "rule": "R4.6", "file": "pytype/convert.py",
+     "expect": "silent",
+     "old": "    return self.merge_values(sorted(classes, key=lambda cls: cls.full_name))",
+     "new": "    return self.merge_values(sorted(tuple(classes), key=lambda cls: cls.full_name))"},
+    {"name": "twin-commutative-count-over-set", "rule": "R4.6", "file": IO, "expect": "silent",
+     "old": "  names = {e.name for e in errorlog}\n",
+     "new": "  names = {e.name for e in errorlog}\n  total = 0\n  for _ in names:\n    total += 1\n"},
+    {"name": "twin-set-to-set-comprehension", "rule": "R4.6", "file": IO, "expect": "silent",
+     "old": "  names = {e.name for e in errorlog}\n",
+     "new": "  names = {e.name for e in errorlog}\n  lowered = {n.lower() for n in names}\n"},
+]
